@@ -128,6 +128,7 @@ type CsWrite struct {
 	Op       string // create | update | delete
 	Key, Val []byte
 	Rev      uint64 // expected revision (update / delete)
+	Lease    int64  // the request's Lease (create / update)
 }
 
 // Do runs the request and waits for its revision to be committed. class = ok | false | err.
@@ -136,10 +137,10 @@ func (c *CsBackend) Do(w CsWrite) (class string, hdr uint64, synced bool) {
 	before := c.B.GetCurrentRevision()
 	switch w.Op {
 	case "create":
-		r, err := c.B.Create(ctx, &proto.CreateRequest{Key: w.Key, Value: w.Val})
+		r, err := c.B.Create(ctx, &proto.CreateRequest{Key: w.Key, Value: w.Val, Lease: w.Lease})
 		class, hdr = csClass(err, r.GetSucceeded()), r.GetHeader().GetRevision()
 	case "update":
-		r, err := c.B.Update(ctx, &proto.UpdateRequest{Kv: &proto.KeyValue{Key: w.Key, Value: w.Val, Revision: w.Rev}})
+		r, err := c.B.Update(ctx, &proto.UpdateRequest{Kv: &proto.KeyValue{Key: w.Key, Value: w.Val, Revision: w.Rev}, Lease: w.Lease})
 		class, hdr = csClass(err, r.GetSucceeded()), r.GetHeader().GetRevision()
 	case "delete":
 		r, err := c.B.Delete(ctx, &proto.DeleteRequest{Key: w.Key, Revision: w.Rev})
@@ -342,7 +343,9 @@ func (r CsRec) Coq(t *CsIntern) string {
 	return App("RVer", t.B(r.K), N(r.Rev), Bytes(r.V))
 }
 
-func (r CsRec) Slot() string { return fmt.Sprintf("%s\x00%d", r.K, map[bool]uint64{true: 0, false: r.Rev}[r.Idx]) }
+func (r CsRec) Slot() string {
+	return fmt.Sprintf("%s\x00%d", r.K, map[bool]uint64{true: 0, false: r.Rev}[r.Idx])
+}
 func (r CsRec) Same(o CsRec) bool {
 	return r.Idx == o.Idx && string(r.K) == string(o.K) && r.Rev == o.Rev && r.Del == o.Del && string(r.V) == string(o.V)
 }
